@@ -767,3 +767,8 @@ func (q query) hasBoolFirst() bool {
 	}
 	return false
 }
+
+// loneExtreme: a single min / max call without buckets (the answer carries the time of the point).
+func (q query) loneExtreme() bool {
+	return q.agg && q.interval == 0 && len(q.calls) == 1 && (q.calls[0].f == "min" || q.calls[0].f == "max")
+}
